@@ -1327,6 +1327,32 @@ class Ceremony:
                 fail("C10", "Q1", "serialize_after_extract_raised", f"serialize() after final_tx() raised {type(e).__name__}: {e}")
             if after is not None and not c.tainted:
                 self.check_emitted(after, c.name + "(after extraction)")
+        if ftx is not None and not c.tainted and st.get("foreign_final_form", True):
+            # other finalisers write no (empty) final-scriptSig record for native segwit inputs: the same finalised PSBT in that form
+            # loads and extracts the same transaction
+            try:
+                pmf = psbtmap.parse(after if after is not None else fin.serialize())
+                changed_ = False
+                for ii_, m_ in enumerate(pmf["inputs"]):
+                    m2_ = [kv for kv in m_ if not (kv[0] == b"\x07" and kv[1] == b"")]
+                    changed_ = changed_ or len(m2_) != len(m_)
+                    pmf["inputs"][ii_] = m2_
+                if changed_:
+                    tr.oracle("Q4_foreign_final_form")
+                    tr.fault("final_scriptsig_record_absent")
+                    try:
+                        f2 = PSBT.parse(BytesIO(psbtmap.serialize(pmf)), network=self.net)
+                        tx2 = f2.final_tx().serialize()
+                        if tx2 != ftx.serialize():
+                            fail("C10", "Q4", "foreign_final_form_other_tx", "the finalised PSBT without its empty final-scriptSig records extracts another transaction")
+                    except (SimDeadlock, Violation):
+                        raise
+                    except Exception as e:
+                        fail("C10", "Q4", "foreign_final_form_not_extractable", f"the finalised PSBT in the form other finalisers emit (no empty final-scriptSig record on native segwit inputs) cannot be loaded/extracted: {type(e).__name__}: {e}")
+            except (SimDeadlock, Violation):
+                raise
+            except Exception:
+                pass
         tr.ev(c.name, "finalize", f"{out}|sigs={per_input}|m={s.m}")
         tr.state("fin", s.kind, s.m, s.n, tuple(per_input), out.split(":")[0], self.tainted)
         tr.oracle("Q4")
